@@ -53,8 +53,30 @@ pub fn check(bc: &BuildCase, with_callback: bool, obs: &mut Obs) -> Result<(), F
     if with_callback {
         // labels as seen by a user shape callback
         let margin = (bc.input.len() + v) % 7;
-        let svg = catch(|| SvgBuilder::default().margin(margin).shape(Shape::Command(reporter)).to_str(&built.qr))
-            .map_err(|p| Fail { sig: panic_sig(&p), msg: format!("SvgBuilder with a Command shape panicked: {}", p) })?;
+        // renderer configurations around the callback: alone; with an embedded image (second converter option);
+        // as the second layer after a built-in shape, with an image and an explicit layer colour
+        let variant = bc.hash() % 3;
+        let svg = catch(|| {
+            let mut b = SvgBuilder::default();
+            b.margin(margin);
+            match variant {
+                0 => {
+                    b.shape(Shape::Command(reporter));
+                }
+                1 => {
+                    b.shape(Shape::Command(reporter));
+                    b.image("logo.png".to_string());
+                }
+                _ => {
+                    b.image("data:image/png;base64,AAAA".to_string());
+                    b.shape_color(Shape::Command(reporter), [10u8, 20, 30]);
+                    b.image_background_shape(fast_qr::convert::ImageBackgroundShape::Circle);
+                }
+            }
+            b.to_str(&built.qr)
+        })
+        .map_err(|p| Fail { sig: panic_sig(&p), msg: format!("SvgBuilder with a Command shape panicked: {}", p) })?;
+        obs.label(&format!("callback_variant:{}", variant));
         let start = svg.find("<path d=\"").map(|i| i + 9).ok_or_else(|| Fail { sig: "callback_path".into(), msg: "no path element in SVG".into() })?;
         let end = svg[start..].find('"').map(|i| i + start).unwrap_or(svg.len());
         let mut seen = vec![false; n * n];
@@ -77,7 +99,9 @@ pub fn check(bc: &BuildCase, with_callback: bool, obs: &mut Obs) -> Result<(), F
             ensure!(!seen[r * n + c], "callback_dup", "callback invoked twice for (row {}, col {})", r, c);
             seen[r * n + c] = true;
         }
-        for i in 0..n * n {
+        // completeness (one call per dark module) is asserted only without an embedded image: whether modules covered
+        // by the image are handed to the callback is not this property's business (C12 speaks about drawn modules)
+        for i in (0..n * n).filter(|_| variant == 0) {
             ensure!(seen[i] == built.qr.data[i].value(), "callback_missing", "callback {} for (row {}, col {}) although the module is {}", if seen[i] { "invoked" } else { "not invoked" }, i / n, i % n, if seen[i] { "light" } else { "dark" });
         }
         obs.label("with_callback");
